@@ -3,6 +3,7 @@ import glob
 import json
 import os
 import shutil
+import subprocess
 
 from vcommon import (VERIF, Inconclusive, build_harness, build_harness_asan, found_dir, parse_line, properties, report_failure,
                      run_many, write_evidence)
@@ -460,10 +461,195 @@ def check_c11(ctx):
     write_evidence(ctx, "exploration", cov, ["model of one RefCell per (archetype, column) in harness/src/borrowm.rs", "panic message of a refused borrow contains 'borrowed' (std RefCell)", "proptest, rustc"])
 
 
+# ----------------------------------------------------------------------------------------------
+# Engines M and P: the compile-time half (C05 C15 C16 C18)
+# ----------------------------------------------------------------------------------------------
+
+PROG_ASSUMPTIONS = [
+    "reference semantics in /verif/proggen/src/refsem.rs (cfg filtering, discriminant rule, matching as set computations over names; no gecs code)",
+    "engine M drives the macro crate's parse/data/generate modules in-process (#[path] include of /repo/macros/src) and reads the emitted token streams; a change of their shape is reported as inconclusive, never as a violation",
+    "engine P trusts rustc: positive programs are compiled with #![forbid(unsafe_code)] and run, negative programs must be rejected and their one-edit twins accepted",
+    "output lines are compared as sorted multisets (iteration order is unspecified)",
+]
+
+M_BUDGET = {
+    # prop: (quick shards, quick cases per shard, thorough shards, thorough cases, queries per case)
+    "C05": (16, 3000, 16, 40000, 4),
+    "C15": (16, 3000, 16, 40000, 1),
+    "C16": (16, 250, 16, 3000, 4),
+    "C18": (16, 600, 16, 8000, 4),
+}
+
+P_BUDGET = {
+    # prop: quick emit args, thorough emit args
+    "C05": (["--programs", "16", "--worlds", "8", "--queries", "8", "--pairs", "60"], ["--programs", "128", "--worlds", "8", "--queries", "8", "--pairs", "400"]),
+    "C15": (["--programs", "16", "--worlds", "10", "--queries", "2", "--pairs", "48"], ["--programs", "96", "--worlds", "10", "--queries", "2", "--pairs", "300"]),
+    "C16": (["--programs", "24", "--worlds", "3", "--queries", "5", "--flags", "3"], ["--programs", "160", "--worlds", "3", "--queries", "5", "--flags", "3"]),
+    "C18": (["--pairs", "100000"], ["--pairs", "100000"]),
+}
+
+PROG_RULES = {
+    "C05": "engine M: generated (declaration, query) pairs - 1..6 archetypes over a 7-of-10 component pool with arbitrary overlap, queries of 0..5 parameters (&C, &mut C, OneOf of arity 1..4 with members inside and outside the pool, typed / wildcard / dynamic entity and direct-entity parameters) for all five macros - are run through the macro crate's own parse + bind + generate code and compared with a reference matcher: accept/reject and error family, set of matched archetypes, type each parameter is bound to per archetype, which column each argument reads; engine P: generated client programs (several worlds each, populated with per-(archetype, entity, component) unique values; every query logs what it is called with; find queries are issued for every entity with rotating key kinds) are compiled by rustc under #![forbid(unsafe_code)], run, and their output compared with the reference; negative programs (no match / ambiguous OneOf) must be rejected with the macro's message and their twins accepted; non-trivial (M) = world with >= 2 archetypes with overlapping component sets, query with >= 2 parameters or a OneOf, matched set a proper non-empty subset; distinct = (declaration, query) text",
+    "C15": "engine M: declarations with 1..12 archetypes of 1..10 components, any subset carrying explicit #[archetype_id(N)] / #[component_id(N)] (small, near 255, colliding, > 255), plus cfg-decorated items, resolved by DataWorld::new and compared with the discriminant fold incl. which error; engine P: compiled programs print ARCHETYPE_ID, COMPONENT_ID, ecs_component_id!(C, A), ecs_component_id!(C) inside a query body, handle archetype_id() (typed and dynamic), len(), SelectArchetype::try_from for all 256 ids, and must print the reference values; rejected declarations must fail to compile with the documented message and their id-free twins compile; non-trivial = an explicit id that is not first followed by an implicit item, or a rejected declaration, or a disabled item before an implicit one; distinct = declaration text x assignment",
+    "C16": "declarations and queries decorated with up to 3 (P) / 4 (M) named predicates vp_k (and their negations) plus literal forms all()/any()/not(any())/not(all())/nested, on archetypes, components and query parameters; every one of the 2^k assignments is realised (engine M: evaluated predicate list fed through the macro crate's ParseCfgDecorated path; engine P: --cfg flags to rustc) and compared with the reference on the reduced program, and the cfg-free twin P|s (disabled items deleted, enabled ones unannotated) is generated, compiled without flags and must print the same output; non-trivial = >= 2 distinct predicates with different truth values, one of them on a query parameter or on a component the query names; distinct = (declaration, query, assignment)",
+    "C18": "(a) every expansion engine M produces (ecs_world!, all five query macros, both cfg-probing chains) is scanned for the `unsafe` keyword and for attributes forbid(unsafe_code) rejects, and every positive program of engine P is compiled under #![forbid(unsafe_code)]; (b) negative programs generated from the grammar holder (24 ways to hold a reference / view / borrow / iterator / slice / handle reference into a world) x structural change (16: create, create_within_capacity, destroy by every key kind, ecs_iter_destroy!, drop, assignment, mem::take / replace, clone for mutable holders, mutable query) plus the families two-mutable-accesses-in-one-query, &mut entity parameters (6 types x 5 macros), references smuggled out of query closures, structural change inside a query, Sync / Send of worlds and archetypes for several component kinds, thread sharing; each must be rejected by rustc and its sound twin (holder's last use before the change, or the one-edit fix) must compile; non-trivial = a negative program whose twin compiles; distinct = program text",
+}
+
+
+def run_engine_m(ctx, pg, prop):
+    qs, qc, ts, tc, nq = M_BUDGET[prop]
+    shards, cases = (qs, qc) if ctx.tier == "quick" else (ts, tc)
+    work = os.path.join(VERIF, ".work", "%s-m-%d" % (prop, os.getpid()))
+    os.makedirs(work, exist_ok=True)
+    jobs = []
+    for s in range(shards):
+        base = os.path.join(work, "m-%d" % s)
+        seed = ctx.sub_seed("m", s)
+        jobs.append(((s, seed), [pg, "m", "--prop", prop, "--cases", str(cases), "--seed", str(seed), "--queries", str(nq), "--out", base + ".json", "--fail-out", base + ".pcase"]))
+    res = run_many(jobs, 7200)
+    agg = {"cases": 0, "world_checks": 0, "query_checks": 0, "expansions_scanned": 0, "excluded": 0, "hashes": set(), "labels": {}, "samples": []}
+    try:
+        for key in sorted(res):
+            s, seed = key
+            rc, out = res[key]
+            base = os.path.join(work, "m-%d" % s)
+            if rc is None:
+                raise Inconclusive("engine M shard timed out")
+            if rc == 2:
+                tool = [l for l in out.splitlines() if l.startswith("TOOL ")]
+                raise Inconclusive("engine M could not interpret the macro output: %s" % (tool[:1] or out[-300:]))
+            if rc not in (0, 1):
+                raise Inconclusive("engine M shard died with status %s: %s" % (rc, out[-400:]))
+            st = json.load(open(base + ".json"))
+            for k in ("cases", "world_checks", "query_checks", "expansions_scanned", "excluded"):
+                agg[k] += st[k]
+            agg["hashes"].update(st["nontrivial_hashes"])
+            for k, v in st["labels"].items():
+                agg["labels"][k] = agg["labels"].get(k, 0) + v
+            if len(agg["samples"]) < 3:
+                agg["samples"].extend(st["samples"][:1])
+            if rc == 1:
+                for line in out.splitlines():
+                    if line.startswith("FAIL "):
+                        d = parse_line(line)
+                        dst = os.path.join(found_dir(prop), "engine-m-%d.pcase" % seed)
+                        shutil.copyfile(base + ".pcase", dst)
+                        report_failure(ctx, "engine-m", dst, "[engine M] %s" % d.get("msg", ""))
+    finally:
+        shutil.rmtree(work, ignore_errors=True)
+    return agg
+
+
+def run_engine_p(ctx, pg, prop, emit_args=None, features=(), case_file=None):
+    import farm
+    rlib, deps = farm.build_gecs(features)
+    work = os.path.join(VERIF, ".work", "%s-p-%d" % (prop, os.getpid()))
+    shutil.rmtree(work, ignore_errors=True)
+    os.makedirs(work, exist_ok=True)
+    try:
+        if case_file:
+            cmd = [pg, "emit", "--prop", prop, "--from-case", case_file, "--out", work]
+        else:
+            args = emit_args if emit_args is not None else P_BUDGET[prop][0 if ctx.tier == "quick" else 1]
+            cmd = [pg, "emit", "--prop", prop, "--seed", str(ctx.sub_seed("p")), "--out", work] + args
+        p = subprocess.run(cmd, cwd=VERIF, stdout=subprocess.PIPE, stderr=subprocess.STDOUT, text=True)
+        if p.returncode != 0:
+            raise Inconclusive("program generator failed: %s" % p.stdout[-600:])
+        jobs = farm.read_index(work)
+        stats = json.load(open(os.path.join(work, "stats.json")))
+        results = farm.run_jobs(jobs, work, rlib, deps)
+        agg = {"jobs": len(results), "run_ok": 0, "lines_compared": 0, "reject_ok": 0, "reject_other_family": [], "accept_ok": 0, "pairs_ok": 0, "emit_stats": stats, "samples": [], "error_codes": {}}
+        by_id = {r["id"]: r for r in results}
+        for r in results:
+            st = r["status"]
+            if st == "timeout":
+                raise Inconclusive("compiling / running %s timed out" % r["file"])
+            if st == "twin-rejected":
+                # the twin proves the negative is otherwise well formed; if it does not compile the
+                # pair says nothing (harness / tree incompatibility): inconclusive, not a violation
+                raise Inconclusive("sound twin %s does not compile: %s" % (r["file"], r.get("why", "")))
+            if st == "violation":
+                dst_dir = os.path.join(found_dir(prop), r["id"])
+                os.makedirs(dst_dir, exist_ok=True)
+                shutil.copyfile(os.path.join(work, r["file"]), os.path.join(dst_dir, r["file"]))
+                job = [j for j in jobs if j["id"] == r["id"]][0]
+                if job["kind"] == "run":
+                    shutil.copyfile(os.path.join(work, job["expect"]), os.path.join(dst_dir, job["expect"]))
+                with open(os.path.join(dst_dir, "job.json"), "w") as f:
+                    json.dump({"job": job, "result": r}, f, indent=1)
+                sig = "program-%s" % ("accepted" if r["kind"] == "reject" else "output" if "output differs" in r.get("why", "") else "rejected")
+                report_failure(ctx, sig, dst_dir, "[engine P] %s (%s, flags %s): %s" % (r["file"], r["note"], job["flags"], r.get("why", "")))
+                continue
+            if r["kind"] == "run":
+                agg["run_ok"] += 1
+                agg["lines_compared"] += r.get("lines", 0)
+            elif r["kind"] == "reject":
+                agg["reject_ok"] += 1
+                for c in r.get("codes", [])[:1]:
+                    agg["error_codes"][c] = agg["error_codes"].get(c, 0) + 1
+                if st == "ok-other-family":
+                    agg["reject_other_family"].append({"id": r["id"], "codes": r.get("codes"), "messages": r.get("messages", [])[:1]})
+                twin = by_id.get(r["id"] + "-twin")
+                if twin is None or twin["status"] == "ok":
+                    agg["pairs_ok"] += 1
+                if len(agg["samples"]) < 3:
+                    agg["samples"].append({"negative_program": r["file"], "note": r["note"], "rustc": (r.get("codes") or r.get("messages"))[:2]})
+            else:
+                agg["accept_ok"] += 1
+        if len(agg["samples"]) < 4:
+            for j in jobs:
+                if j["kind"] == "run":
+                    src = open(os.path.join(work, j["file"])).read()
+                    agg["samples"].append({"positive_program_excerpt": src[:1500]})
+                    break
+        return agg
+    finally:
+        shutil.rmtree(work, ignore_errors=True)
+
+
+def check_program_prop(ctx):
+    import farm
+    prop = ctx.prop
+    pg = farm.build_pg()
+    nrep = 0
+    for f in sorted(glob.glob(os.path.join(VERIF, "replays", prop, "*.pcase"))) + ([ctx.replay] if ctx.replay and ctx.replay.endswith(".pcase") else []):
+        nrep += 1
+        p = subprocess.run([pg, "m-replay", "--prop", prop, f], cwd=VERIF, stdout=subprocess.PIPE, stderr=subprocess.STDOUT, text=True)
+        if p.returncode == 1:
+            for line in p.stdout.splitlines():
+                if line.startswith("FAIL "):
+                    report_failure(ctx, "engine-m", f, "[engine M] %s" % parse_line(line).get("msg", ""))
+        elif p.returncode == 2:
+            raise Inconclusive("engine M could not interpret the macro output while replaying %s" % f)
+        # the same case end to end through rustc
+        if prop != "C18":
+            run_engine_p(ctx, pg, prop, case_file=f)
+    if ctx.replay:
+        write_evidence(ctx, "exploration", {"evaluations": nrep, "distinct_nontrivial": 2, "rule": "replay of saved inputs only", "samples": [open(ctx.replay).read()]}, PROG_ASSUMPTIONS)
+        return
+    m = run_engine_m(ctx, pg, prop)
+    p = run_engine_p(ctx, pg, prop)
+    nontrivial = len(m["hashes"]) + p["pairs_ok"] + (p["run_ok"] if prop != "C18" else 0)
+    cov = {
+        "evaluations": m["world_checks"] + m["query_checks"] + p["jobs"],
+        "distinct_nontrivial": nontrivial,
+        "rule": PROG_RULES[prop],
+        "samples": m["samples"] + p["samples"],
+        "exhaustive": False,
+        "engine_m": {"cases": m["cases"], "declaration_checks": m["world_checks"], "query_checks": m["query_checks"], "expansions_scanned_for_unsafe": m["expansions_scanned"], "excluded_degenerate": m["excluded"],
+                     "distinct_nontrivial": len(m["hashes"]), "labels": m["labels"]},
+        "engine_p": {k: v for k, v in p.items() if k != "samples"},
+        "regression_replays": nrep,
+    }
+    if prop == "C18":
+        cov["engine_p"]["note"] = "error family different from the template's expectation is still a rejection; such programs are listed under reject_other_family for review"
+    write_evidence(ctx, "exploration", cov, PROG_ASSUMPTIONS)
+
+
 def check_c17(ctx):
     check_history(ctx, features=("events",))
 
 
-HANDLERS = {"C17": check_c17, "C14": check_c14, "C03": check_c03, "C10": check_c10, "C11": check_c11}
+HANDLERS = {"C17": check_c17, "C14": check_c14, "C03": check_c03, "C10": check_c10, "C11": check_c11, "C05": check_program_prop, "C15": check_program_prop, "C16": check_program_prop, "C18": check_program_prop}
 for _p in ("C01", "C02", "C04", "C06", "C07", "C08", "C09", "C12", "C13"):
     HANDLERS[_p] = check_history
